@@ -52,6 +52,7 @@ package datatype
 //@ func Decode(Type, b) (r, err)
 //@   property C01 C03 C04
 //@   modifies
+//@   assume decoder_entries_are_functions: forall t TypeID :: has(Decoder, t) ==> Decoder[t] != nil
 //@   ensures nonnil: err == nil ==> r != nil && valid(r)
 //@   ensures [C04] len_preserved: err == nil ==> dlen(r) == len(b)
 //@   ensures [C04] payload_preserved: err == nil ==> forall i int :: 0 <= i && i < len(b) ==> dbyte(r, i) == b[i]
